@@ -133,6 +133,10 @@ Definition kex_next (c : cfg) (t : Z) (ok : bool) : option (list Z * list Z * bo
             else None
   end.
 
+(* the message types any kex engine ever expects (and KEXINIT / NEWKEYS) *)
+Definition kexmsg (t : Z) : bool :=
+  (t =? 20) || (t =? 21) || (t =? 30) || (t =? 31) || (t =? 32) || (t =? 33) || (t =? 34).
+
 (* ---- handlers ------------------------------------------------------------------------------ *)
 (* _enforce_strict_kex *)
 Definition enforce (st : peer) : bool := agreed st && negb (kdone st).
